@@ -63,6 +63,19 @@ def run_one(s):
         attr(dom, names, [r_] if names else [], t1)
         tr["single"].append(t1)
     attr(dom, names, rows, tr)
+    # history: the first operand of an intersection is a product with a USER-SET bounding box (its own exact box, as a list); after the
+    # intersection's box was asked, the operand's box is still the one the user set
+    tr["pbox_hist"], tr["pbox_hist_exc"] = [], "none"
+    if e["k"] == "and" and e["l"]["k"] == "prod" and not names:
+        def hist_box():
+            d5 = U.build(e)
+            P_ = d5.domain_a
+            P_.set_bounding_box([float(v) for v in P_.bounding_box()])
+            d5.bounding_box()
+            return P_.bounding_box()
+        r = watched(hist_box)
+        tr["pbox_hist"] = box_out(torch.as_tensor(r[1])) if r[0] == "ok" else []
+        tr["pbox_hist_exc"] = "" if r[0] == "ok" else (r[1] if len(r) > 1 else "hang")
     # the same shape far away from the origin (1e6, 2e6, ...): the measure does not depend on where the shape is
     tr["volfar"], tr["volfar_exc"] = [], "none"
     js_ = __import__("json").dumps(e)
